@@ -671,7 +671,12 @@ pub fn check_c12(prog: &NetProgram, res: &NetResult, info: &mut RunInfo) {
         return;
     }
     for r in &res.trace {
-        if let Ev::Query { parent_ok, children_ok, path_ok, name_ok, inactive } = r.ev {
+        if let Ev::Query { parent_ok, children_ok, path_ok, name_ok, inactive, roundtrip_ok } = r.ev {
+            if !roundtrip_ok {
+                info.violate(Violation::new("C12", "tree-lookup-roundtrip", format!(
+                    "module {}: going to one of its children and back (child(name)?.parent()) does not lead back to the module (error, other module, or panic)", module_path(prog, r.m as usize))));
+                return;
+            }
             info.probe("tree_query");
             // a relative may only be reported as inactive if it was shut down or has panicked
             if inactive != 0 {
@@ -682,9 +687,13 @@ pub fn check_c12(prog: &NetProgram, res: &NetResult, info: &mut RunInfo) {
                     rel.push(prog.modules[m].parent as usize);
                 }
                 for (k, ci) in (0..prog.modules.len()).filter(|ci| prog.modules[*ci].parent == m as i32).enumerate() {
-                    if inactive & (1 << (1 + k.min(30))) != 0 {
+                    if inactive & (1 << (1 + k.min(29))) != 0 {
                         rel.push(ci);
                     }
+                }
+                // bit 31: the way back from a child reported this module itself as inactive
+                if inactive & (1 << 31) != 0 {
+                    rel.push(m);
                 }
                 if let Some(x) = rel.iter().find(|x| !went_down(**x)) {
                     info.violate(Violation::new("C12", "tree-lookup-inactive", format!(
